@@ -175,7 +175,10 @@ GotViol(m, c, i, rep) ==
               ELSE {<<"C07", c, i, "merge-wrong">>})
            ELSE IF IsErr(rep) /\ fault THEN {}
            ELSE {<<"C07", c, i, "reply-before-all-fragments">>})
-  IN v03 \cup v01 \cup v13 \cup v16 \cup rest
+      \* a fragment of the request was answered with an error: whatever else is wrong, what the client reads in this place
+      \* must be an error (C11), never a value - not even somebody else's
+      v11 == IF r.k \notin LocalKinds /\ anyErr /\ ~IsErr(rep) THEN {<<"C11", c, i, "backend-error-answered-with-a-value">>} ELSE {}
+  IN v03 \cup v01 \cup v13 \cup v16 \cup v11 \cup rest
 
 -----------------------------------------------------------------------------
 \* prompt delivery (C09), no orphan after a lost backend (C15), timeout answered in place (C16)
